@@ -17,11 +17,12 @@ def _sub(sp, a, b):
     return a - b
 
 
-def fd_errors(f, sp_ran, x, d, Dd, hs=HS):
+def fd_errors(f, sp_ran, x, d, Dd, hs=HS, Dfun=None, floor=0.0):
     """Relative errors of (f(x+hd) - f(x-hd))/(2h) against Dd for each h.
 
     The rounding noise of the difference quotient, ~ eps * |f(x)| / h, is subtracted from the discrepancy, so
-    that expressions with cancellation ((A + v) - A) or badly scaled values do not produce spurious errors."""
+    that expressions with cancellation ((A + v) - A) or badly scaled values do not produce spurious errors.
+    ``floor`` is an absolute rounding floor of the derivative value itself (see ``term_scale``)."""
     errs = []
     del fds[:]
     try:
@@ -36,10 +37,46 @@ def fd_errors(f, sp_ran, x, d, Dd, hs=HS):
             fd = (fp - fm) / (2 * h)
         noise = 64 * eps * max(fx, _norm(sp_ran, fp), _norm(sp_ran, fm)) / h
         sc = max(1e-12, _norm(sp_ran, Dd), _norm(sp_ran, fd))
-        diff = max(0.0, _norm(sp_ran, _sub(sp_ran, fd, Dd)) - noise)
+        diff = max(0.0, _norm(sp_ran, _sub(sp_ran, fd, Dd)) - noise - floor)
         e = diff / sc
         errs.append(e if np.isfinite(e) else float('inf'))
         fds.append((fd, noise, sc))
+    if verdict(errs) is not None:
+        # The model noise eps*|f|/h only knows the magnitude of the final value; an expression that cancels internally
+        # ((A + B) - B with |B| >> |A|) is noisier than that.  Measure the noise instead: the quotient at steps
+        # h(1 +- 2^-20) differs from the quotient at h by O(2^-20 h^2) analytically, anything beyond that is rounding.
+        errs = []
+        del fds[:]
+        # ... and the same for the derivative under test: a tree that is identically zero (((A + B) - B) - A) has a
+        # derivative value that is pure rounding residue of its terms; D(x(1 +- 2^-30))(d) differs from D(x)(d) by
+        # O(2^-30 |D^2 F| |x| |d|) analytically (far below every threshold here), anything beyond that is rounding.
+        noise_d = 0.0
+        if Dfun is not None:
+            try:
+                with np.errstate(all='ignore'):
+                    noise_d = 4 * max(_norm(sp_ran, _sub(sp_ran, Dfun(x * (1 + dl)), Dd)) for dl in (2.0 ** -30, -2.0 ** -31))
+                if not np.isfinite(noise_d):
+                    noise_d = 0.0
+            except Exception:
+                noise_d = 0.0
+        for h in hs:
+            with np.errstate(all='ignore'):
+                q = []
+                for hh in (h, h * (1 + 2.0 ** -20), h * (1 - 2.0 ** -21), h * (1 + 2.0 ** -19)):
+                    fp, fm = f(x + hh * d), f(x - hh * d)
+                    q.append((fp - fm) / (2 * hh))
+                fd = q[0]
+                noise = 64 * eps * max(fx, _norm(sp_ran, fp), _norm(sp_ran, fm)) / h
+                try:
+                    noise = max(noise, 4 * max(_norm(sp_ran, _sub(sp_ran, qq, fd)) for qq in q[1:]))
+                except Exception:
+                    pass
+                noise = noise + noise_d + floor
+            sc = max(1e-12, _norm(sp_ran, Dd), _norm(sp_ran, fd))
+            diff = max(0.0, _norm(sp_ran, _sub(sp_ran, fd, Dd)) - noise)
+            e = diff / sc
+            errs.append(e if np.isfinite(e) else float('inf'))
+            fds.append((fd, noise, sc))
     return errs
 
 
@@ -78,3 +115,24 @@ def verdict(errs):
         # a pre-asymptotic plateau followed by 100x steps (oscillatory operators) is fine
         return 'fd-rate'
     return None
+
+
+def term_scale(op, x, d, depth=0):
+    """Sum of the magnitudes of the terms of D(op)(x)(d) over the additive structure of ``op`` (sums, differences,
+    scalar multiples, negations).  ``64 * eps * term_scale`` is the size of the rounding residue an expression like
+    ((A + B) - B) - A leaves in its derivative value: discrepancies below it are not observable."""
+    import odl
+    from odl.operator import operator as oo
+    try:
+        if depth < 40:
+            if isinstance(op, oo.OperatorSum):
+                return term_scale(op.left, x, d, depth + 1) + term_scale(op.right, x, d, depth + 1)
+            if isinstance(op, oo.OperatorLeftScalarMult):
+                return abs(op.scalar) * term_scale(op.operator, x, d, depth + 1)
+            if isinstance(op, oo.OperatorRightScalarMult):
+                return term_scale(op.operator, op.scalar * x, op.scalar * d, depth + 1)
+        with np.errstate(all='ignore'):
+            v = _norm(op.range, op.derivative(x)(d))
+        return v if np.isfinite(v) else 0.0
+    except Exception:
+        return 0.0
